@@ -1,6 +1,6 @@
 (* C18 — untied ranks refine the ranking; comparators align by alternative name. *)
 From Coq Require Import ZArith QArith List Bool Arith Permutation.
-From SKC Require Import Base.QList Model.Transform Model.Weights Model.Untie Theory.Untie Theory.Cmp.
+From SKC Require Import Base.QList Model.Transform Model.Weights Model.Untie Theory.Untie Theory.Argsort Theory.Cmp.
 Import ListNotations.
 
 Theorem C18_untied_is_a_permutation_of_1_to_n : forall r, Permutation (untie r) (seq 1 (length r)).
@@ -49,6 +49,14 @@ Print Assumptions C18_diagonal_r2_is_1.
 Theorem C18_diagonal_correlation_core : forall v, cov v v == pvar v.
 Proof. exact diag_corr_core. Qed.
 Print Assumptions C18_diagonal_correlation_core.
+
+(* the repaired implementation computes argsort(argsort(rank, stable), stable) + 1: the alternative found at
+   position (untied rank - 1) of the stable argsort of the ranks is the alternative itself, i.e. the untied ranking
+   is the inverse permutation of the stable argsort - the double argsort IS the specification *)
+Theorem C18_untied_is_the_inverse_of_the_stable_argsort : forall r i,
+  (i < length r)%nat -> nth_error (argsort r) (nth i (untie r) 0%nat - 1) = Some i.
+Proof. exact untied_is_inverse_of_stable_argsort. Qed.
+Print Assumptions C18_untied_is_the_inverse_of_the_stable_argsort.
 
 (* tables are square over the rankings, cell (i, j) compares ranking i with ranking j, and the covariance and
    distance tables are symmetric *)
